@@ -412,6 +412,16 @@ func runMachine(t *rapid.T, concurrent bool) {
 		p := rapid.SampledFrom(routePool).Draw(t, "pattern")
 		if len(tb.routes) > 0 && rapid.IntRange(0, 2).Draw(t, "samePatternOtherMethod") == 0 {
 			p = tb.routes[rapid.IntRange(0, len(tb.routes)-1).Draw(t, "which")].Pattern
+			if rapid.Bool().Draw(t, "otherParameterNames") {
+				// the same shape under another method may well call its parameters differently
+				frags := strings.Split(p, "/")
+				for j, f := range frags {
+					if len(f) > 1 && f[0] == ':' {
+						frags[j] = f + rapid.SampledFrom([]string{"2", "_other", "X"}).Draw(t, "suffix")
+					}
+				}
+				p = strings.Join(frags, "/")
+			}
 		}
 		m := rapid.SampledFrom([]string{"GET", "GET", "*", "POST", "PUT"}).Draw(t, "method")
 		r, ok := rm.NewRoute(p, m)
